@@ -49,6 +49,10 @@ def schema_text(depth):
         prev = f'#l{k}'
     # the data name carries the identity (idK) of the key that may sign it: a pattern shared between packet and key rule
     lines.append(f'#data: #site/"data"/id{depth}/x <= #zaux | {prev} | #aux' if depth >= 1 else f'#data: #site/"data"/_/x <= {prev}')
+    # a catch-all rule that every data (and certificate-free four-component) name matches as well, signable only by keys nobody
+    # holds: a packet name that matches several signed rules which bind different patterns
+    lines.append('#misc: #site/_/_/_ <= #zaux')
+    lines.append('#amisc: #site/"data"/_/_ <= #aux')
     return '\n'.join(lines) + '\n'
 
 
